@@ -12,7 +12,7 @@ CHECKS = {
         note="Trusted: rustc's `as` cast on the unit-only twin enum; the masking-fixpoint attribution of diagnostics (canaries planted in every run). Bounds: sequences up to length 2 (quick) / 3 (thorough); value domain exhaustive only for 8/16-bit reprs.",
         design_ref="DESIGN.md §3 C12", engine="compile"),
     "C10": dict(
-        technique="bounded exhaustive enumeration of struct/enum shapes x all 24 operator derives x forward modes, executed on a free-term-algebra operand type; every ordered pair of variant values for enums; result terms compared with the field-wise law",
+        technique="bounded exhaustive enumeration of struct/enum shapes x all 24 operator derives x forward modes, executed on a free-term-algebra operand type; every ordered pair of variant values for enums; result terms compared with the field-wise law Operand types carry decoy inherent methods named like the operator methods; named fields/variants come from a non-alphabetical pool with `_`-prefixed and raw names; `not(forward)` spelling, empty-field-list variants, where-clauses, 11-field shapes.",
         text="Small-scope exhaustive exploration of type shapes with an uninterpreted (term-building) operand type: the result of every derived operator call is compared structurally with op(lhs.i, rhs.i) for every field, so operand swaps, field swaps, wrong methods and wrong error kinds are all visible. Parametricity lifts the single valuation to all operand values.",
         note="Trusted: parametricity of expansions in operand values (they only call trait methods); rustc. Bounds: 1..3 fields (4 thorough), enums of <=2 (3 thorough) variants over {unit,tuple1,tuple2,named2(,named1,tuple3)}.",
         design_ref="DESIGN.md §3 C10", engine="compile"),
@@ -37,12 +37,12 @@ CHECKS = {
         note="Trusted: the 40-line rule model (every prediction executed); the regex that reads the selected member off the expansion (fails loudly when it cannot). Layouts with a detected backtrace are decided in-process in the quick tier; the thorough tier also compiles and runs 1.4k of them with cargo +nightly (#![feature(error_generic_member_access)]).",
         design_ref="DESIGN.md §3 C09", engine="inproc+compile"),
     "C14": dict(
-        technique="bounded exhaustive enumeration of structs (1..3 fields x selected position x selection mode x named/tuple x equal/different field types) x {Deref, DerefMut, AsRef, AsMut, Index, IndexMut, IntoIterator} x {direct, forward, listed types, generic, owned/ref/ref_mut}; address identity and write-through observed at run time",
+        technique="bounded exhaustive enumeration of structs (1..3 fields x selected position x selection mode x named/tuple x equal/different field types) x {Deref, DerefMut, AsRef, AsMut, Index, IndexMut, IntoIterator} x {direct, forward, listed types, generic, owned/ref/ref_mut}; address identity and write-through observed at run time Field types carry decoy inherent methods (deref, as_ref, index, into_iter ...); unsized fields (str newtype, trait object); field-level vs struct-level forward overrides in both directions.",
         text="Small-scope exhaustive exploration; the field type's own AsRef<Self>/AsMut<Self> deliberately return a decoy so 'the field itself' vs 'a forwarded call' is observable; addresses of returned references and iterated elements are compared with the field's own.",
         note="Trusted: rustc; address comparison within one process. Bounds: <=3 fields.",
         design_ref="DESIGN.md §3 C14", engine="compile"),
     "C18": dict(
-        technique="exhaustive enumeration, against the real parser/expanders in-process under catch_unwind, of (b) all strings up to length 4 (5 thorough) over a 31-symbol alphabet with 1-4 byte characters into the literal parser and up to length 3 (4) as literals in 8 attribute positions, (c) all attribute token sequences up to length 2 (3) over a 38-token alphabet and up to length 3 (4) over a 20-token alphabet for every helper attribute x 8 item templates, (a) all 50 derives x 36 item shapes incl. unions/empty enums, (d) repetition/nesting growth series; an abort or hang is bisected by index",
+        technique="exhaustive enumeration, against the real parser/expanders in-process under catch_unwind, of (b) all strings up to length 4 (5 thorough) over a 31-symbol alphabet with 1-4 byte characters into the literal parser and up to length 3 (4) as literals in 8 attribute positions, (c) all attribute token sequences up to length 2 (3) over a 38-token alphabet and up to length 3 (4) over a 20-token alphabet for every helper attribute x 8 item templates, (a) all 50 derives x 36 item shapes incl. unions/empty enums, (d) repetition/nesting growth series; an abort or hang is bisected by index Part a/f also require that an accepted expansion of a valid item parses as Rust items; part g compiles every in-process-rejected input (624) with the real rustc and classifies `proc-macro derive panicked` messages.",
         text="Bounded exhaustive input-space exploration with an oracle on the outcome class: Ok, Err(diagnostic) or deliberate diagnostic panic are fine; unreachable!/unimplemented!/unwrap/indexing/overflow panics, panics inside syn/quote/proc-macro2, process aborts and calls over the watchdog are violations. The spaces are index-addressable so a crash is attributed to one input.",
         note="Trusted: the panic-site classifier (reads the source line at the reported location); proc-macro2 fallback mode behaves like the compiler's token API for these inputs. Growth: exponent <= 2.7 over the last three doublings, no call > 60 s; small inputs: no call > 2 s.",
         design_ref="DESIGN.md §3 C18", engine="inproc"),
@@ -87,12 +87,12 @@ CHECKS = {
         note="Trusted: std's derive(Debug)/builders as the specification; the sticky failing sink. The known finding is recognised only when the output equals the defect model exactly.",
         design_ref="DESIGN.md §3 C06", engine="compile + engines/dbgtuple"),
     "C01": dict(
-        technique="bounded exhaustive enumeration of programs: 50 derives x their documented shape/attribute templates (support table transcribed from impl/doc) x 8 (quick) / 14 (thorough) generics signatures (lifetimes, bounded/defaulted type parameters, const parameters with defaults, where-clauses incl. projections, const-before-type) x plain/raw identifiers x {none, #[deprecated] field, #[deprecated] variant, uninhabited field}; each program is expanded in-process (accepted, impl-header invariants) and type-checked by rustc with the real proc-macro under #![deny(warnings)], differentially against a control twin without the derive",
+        technique="bounded exhaustive enumeration of programs: 50 derives x their documented shape/attribute templates (support table transcribed from impl/doc) x 8 (quick) / 14 (thorough) generics signatures (lifetimes, bounded/defaulted type parameters, const parameters with defaults, where-clauses incl. projections, const-before-type) x plain/raw identifiers x {none, #[deprecated] field, #[deprecated] variant, uninhabited field}; each program is expanded in-process (accepted, impl-header invariants) and type-checked by rustc with the real proc-macro under #![deny(warnings)], differentially against a control twin without the derive Plus 'accepted => compiles': 53 degenerate/plain item shapes x 50 derives x container-level and (first/last/every) member-level helper attributes; whatever the real expander accepts in-process is compiled under #![deny(warnings)] (6.6k programs).",
         text="Small-scope exhaustive exploration of the supported program space; the verdict per program is rustc's (no diagnostics attributable to the derive) plus structural invariants of the generated impl headers.",
         note="Trusted: the support table (docs transcription); the carrier type meeting every trait requirement; rustc. Field types are the carrier H<X, N> (and T for Error); other field-type forms are C04's subject.",
         design_ref="DESIGN.md §3 C01", engine="inproc+compile"),
     "C15": dict(
-        technique="bounded exhaustive enumeration: every (derive, documented template) of C01's support table on the non-generic and a fully generic signature (plus a third in thorough), placed in two hostile scopes - #[no_implicit_prelude] with only `use ::derive_more;`, and a module shadowing 96 prelude type/variant/trait names, derive_more helper names, std macros and core/std/alloc - and type-checked with the real proc-macro under #![deny(warnings)]",
+        technique="bounded exhaustive enumeration: every (derive, documented template) of C01's support table on the non-generic and a fully generic signature (plus a third in thorough), placed in two hostile scopes - #[no_implicit_prelude] with only `use ::derive_more;`, and a module shadowing 96 prelude type/variant/trait names, derive_more helper names, std macros and core/std/alloc - and type-checked with the real proc-macro under #![deny(warnings)] Third hostile scope: a local blanket trait with by-value methods named like the 40 methods of the std traits the derives delegate to.",
         text="Configuration-space exploration: the same programs that compile in a neutral scope (C01) must compile in each hostile scope; user-written tokens are given explicit imports so any unresolved or mis-resolved name is the expansion's.",
         note="Trusted: rustc name resolution. Behavioural identity follows from the expansion text being scope-independent; only compilation is observed.",
         design_ref="DESIGN.md §3 C15", engine="compile"),
@@ -102,7 +102,7 @@ CHECKS = {
         note="Trusted: cargo/rustc; the helper-type -> feature table transcribed from the docs. Triples and larger proper subsets are not explored (pairs exercise every pairwise combination of the cfg(any(feature..)) guards).",
         design_ref="DESIGN.md §3 C20", engine="cargo"),
     "C17": dict(
-        technique="enumeration of the documented attribute grammar per derive (tables transcribed from impl/doc and the CHANGELOG): 70 groups of synonymous spellings (skip/ignore, bound/bounds, one list vs several attributes incl. every ordered split of 3-type lists and every spreading of owned/ref/ref_mut over up to three attributes, trailing commas, argument/attribute order, mark-one vs ignore-others; ~1.1k spellings) expanded by the real code in-process and compared as canonical multisets of items; 337 single-step corruptions (unknown argument in each slot, duplicates, conflicting pairs, wrong item kind, legacy forms) each of which must be rejected by the derive (or, for arguments that are syntactically types, by rustc on the real proc-macro); and, for the 22 positions of the derives sharing the flag-style parser, ALL parameter sequences up to length 3 (4 thorough) over a 12-token alphabet: whatever is accepted must use only documented parameters, none twice or contradictorily, `ignore` alone",
+        technique="enumeration of the documented attribute grammar per derive (tables transcribed from impl/doc and the CHANGELOG): 70 groups of synonymous spellings (skip/ignore, bound/bounds, one list vs several attributes incl. every ordered split of 3-type lists and every spreading of owned/ref/ref_mut over up to three attributes, trailing commas, argument/attribute order, mark-one vs ignore-others; ~1.1k spellings) expanded by the real code in-process and compared as canonical multisets of items; 337 single-step corruptions (unknown argument in each slot, duplicates, conflicting pairs, wrong item kind, legacy forms) each of which must be rejected by the derive (or, for arguments that are syntactically types, by rustc on the real proc-macro); and, for the 22 positions of the derives sharing the flag-style parser, ALL parameter sequences up to length 3 (4 thorough) over a 12-token alphabet: whatever is accepted must use only documented parameters, none twice or contradictorily, `ignore` alone Part 4: every corpus item decorated with unrelated attributes on item/variants/fields must expand identically (25k comparisons); part 5: every corpus item re-spelled with the least / the most whitespace the lexer allows must expand to the same token trees (54k comparisons); the corpus includes the repository's own test and documentation derive inputs.",
         text="Exhaustive over the hand-transcribed grammar tables (not over all token sequences - those are C18's space): each rewrite pair must expand identically, each corruption must fail.",
         note="Trusted: the grammar tables in props/c17.py and the canonicalisation (impl order, where-predicate order). Positions the docs do not name (e.g. #[display] on a field, #[index] on the struct) are out of scope.",
         design_ref="DESIGN.md §3 C17", engine="inproc+compile"),
